@@ -178,6 +178,7 @@ Inductive op :=
 | OTouch (f : nat)                 (* mfs.Touch *)
 | OSize (f : nat)                  (* Lookup; File.Size *)
 | OFlushFile (f : nat)             (* Lookup; File.Flush *)
+| OWriteFlush (f : nat) (sync : bool) (* Lookup; Open(Write,Sync); Truncate(0); Write; fd.Flush; Close *)
 | OListD                           (* Lookup /d; List (ForEachEntry over its one entry, file 0) *)
 | OFlushDir                        (* Lookup /d; Directory.Flush: getNode(clean) then parent.updateChildEntry *)
 | OFlushPathD.                     (* mfs.FlushPath(/d): Directory.Flush, WaitPub, Directory.GetNode *)
@@ -218,6 +219,14 @@ Definition p_op (reentrant : bool) (t : nat) (o : op) : list pact :=
       [(ALock (LDesc f), Some POpenDescLock); (ARLock (LNode f), Some POpenNodeRLock); (ARUnlock (LNode f), None);
        (ALock (LFd t), Some PFdFlush)] ++ p_flushup f true ++
       [(AUnlock (LFd t), None); (ALock (LFd t), Some PFdClose); (AUnlock (LDesc f), None); (AUnlock (LFd t), None)]
+  | OWriteFlush f _ =>
+      (* fd.Flush is flushUp(true) whatever the Sync flag; the Close then finds stateFlushed *)
+      p_lookup f ++
+      [(ALock (LDesc f), Some POpenDescLock); (ARLock (LNode f), Some POpenNodeRLock); (ARUnlock (LNode f), None);
+       (ALock (LFd t), Some PFdTruncate); (AUnlock (LFd t), None);
+       (ALock (LFd t), Some PFdWrite); (AUnlock (LFd t), None);
+       (ALock (LFd t), Some PFdFlush)] ++ p_flushup f true ++
+      [(AUnlock (LFd t), None); (ALock (LFd t), Some PFdClose); (AUnlock (LDesc f), None); (AUnlock (LFd t), None)]
   | OListD =>
       [(ALock (LDir 0), None); (AUnlock (LDir 0), None); (ALock (LDir 1), None)] ++
       p_getnode 0 ++ [(ARLock (LNode 0), Some PSizeNodeRLock); (ARUnlock (LNode 0), None); (AUnlock (LDir 1), None)]
@@ -233,7 +242,8 @@ Definition p_thread (reentrant : bool) (t : nat) (ops : list op) : list pact :=
   flat_map (p_op reentrant t) ops.
 
 Definition all_ops : list op :=
-  flat_map (fun f => [OWrite f true; OWrite f false; ORead f; OMode f; OModTime f; OChmod f; OTouch f; OSize f; OFlushFile f])
+  flat_map (fun f => [OWrite f true; OWrite f false; ORead f; OMode f; OModTime f; OChmod f; OTouch f; OSize f; OFlushFile f;
+                     OWriteFlush f true; OWriteFlush f false])
            [0; 1] ++ [OListD; OFlushDir; OFlushPathD].
 
 (** ---------- correspondence ---------- *)
